@@ -72,7 +72,19 @@ def build_jobs(ctx, rng):
             if two_d and not ctx.thorough and rng.random() < 0.5 and name not in ('individual_axes', 'asls', 'pspline_asls'):
                 continue
             add(name, kw, two_d=two_d, data='random_x' if (not two_d and rng.random() < 0.3) else 'noisy')
-    # B. Whittaker family: difference orders and lam (layout selection depends on diff_order == 2)
+    # A2. every method with single parameters moved to non-default values (optional code paths)
+    for two_d in (False, True):
+        reg = M.registry(two_d)
+        for name, e in sorted(reg.items()):
+            if name in ('custom_bc', 'optimize_extended_range', 'collab_pls', 'individual_axes', 'adaptive_minmax', 'cwt_br'):
+                continue
+            base = M.filter_kwargs(e, M.call_kwargs(name, two_d))
+            if 'max_iter' in e['params']:
+                base['max_iter'] = 3
+            svs = [kw for kw in M.single_variants(name, e, two_d, base=base) if kw.get('max_iter', 0) <= 5 and kw.get('tol', 1) != 0.0]
+            k = len(svs) if ctx.thorough else min(len(svs), 1 if two_d else 3)
+            for i in (sorted(rng.choice(len(svs), k, replace=False)) if svs else []):
+                add(name, svs[int(i)], two_d=two_d, tag='.var')
     for host in WHIT_STD + ['iasls', 'aspls', 'drpls']:
         for d in (1, 2, 3):
             if host in ('iasls', 'drpls') and d < 2:
